@@ -63,6 +63,33 @@ func c17Load(sdl, backend string) (*ggql.Root, error) {
 	return root, err
 }
 
+// c17LoadStaged loads the documents one after the other and asks the full introspection query (both deprecation modes)
+// after each of them; with no staging it is c17Load.
+func c17LoadStaged(sdl string, loads []string, backend string) (*ggql.Root, error) {
+	if len(loads) < 2 {
+		return c17Load(sdl, backend)
+	}
+	root, err := c17Load(loads[0], backend)
+	if err != nil {
+		return nil, err
+	}
+	for _, l := range loads[1:] {
+		var perr error
+		pv, _ := run.Protect(func() {
+			_ = root.ResolveString(c17FullQuery, "Full", map[string]interface{}{"dep": true})
+			_ = root.ResolveString(c17FullQuery, "Full", map[string]interface{}{"dep": false})
+			perr = root.ParseString(l)
+		})
+		if pv != nil {
+			return nil, fmt.Errorf("panic: %v", pv)
+		}
+		if perr != nil {
+			return nil, perr
+		}
+	}
+	return root, nil
+}
+
 // ---------------------------------------------------------------- expected introspection graph
 
 // DefaultText matches an introspection defaultValue text against the model default.
@@ -588,8 +615,17 @@ func runC17(c *run.Ctx) {
 		nontriv := strings.Contains(sdl, "@deprecated") || strings.Contains(sdl, " = ") || strings.Contains(sdl, "directive @")
 		roots := map[string]*ggql.Root{}
 		okLoad := true
+		// every third schema arrives in several successive loads (members also through extend blocks) and is
+		// introspected after each load: whatever an early answer leaves behind must not show in the final one
+		var loads []string
+		if i%3 == 1 {
+			loads = c16Arrange(c.Rand(i*7+3), ms, 4).loads
+			c.Bucket("loading", fmt.Sprintf("staged-%d-loads-introspected-between", len(loads)))
+		} else {
+			c.Bucket("loading", "one-document")
+		}
 		for _, bk := range []string{"reflect", "iface", "any"} {
-			root, err := c17Load(sdl, bk)
+			root, err := c17LoadStaged(sdl, loads, bk)
 			if err != nil {
 				okLoad = false
 				break
